@@ -63,10 +63,10 @@ def build(rng):
         else:
             e_in = rng.choice(["F", "Cl", "Br", "I"])  # carries '>' : sits at the head of the chain
             e_out = rng.choice(["[H]", "F", "O", "N", "Br"])  # carries '<' : sits at the tail
-            w1, w2 = rng.choice([None, 2.0, 0.5]), rng.choice([None, 3.0])
+            w1, w2 = rng.choice([None, 2.0, 0.5, 0.0]), rng.choice([None, 3.0, 3.0, 0.0])  # a zero next to positive weights: never the start, still a cap
             ends = [gen.single_atom_token(e_out, Desc("<", None, w1)), gen.single_atom_token(e_in, Desc(">", None, w2))]
             if rng.random() < 0.4:
-                ends.append(gen.single_atom_token(rng.choice(["S", "C"]), Desc("<", None, rng.choice([None, 1.5]))))
+                ends.append(gen.single_atom_token(rng.choice(["S", "C"]), Desc("<", None, rng.choice([None, 1.5, 0.0]))))
             s = StochAst(Desc(""), Desc(""), [u], ends, d)
         els.append(s)
         blocks.append((gen.parse_fragment(smi).to_text(), m))
@@ -121,6 +121,9 @@ def query(smi, M, cnt):
     except steps.StepBudgetExceeded:
         cnt["queries_over_budget"] += 1
         return None
+    except Exception as exc:  # an exception is an observation, not a harness error
+        cnt["queries_raised"] += 1
+        return exc
     p = res[0] if isinstance(res, tuple) else res
     return float(p)
 
@@ -206,6 +209,12 @@ def run_case(case):
             if got is None:
                 decided_all = False
                 continue
+            if isinstance(got, Exception):
+                decided_all = False
+                zero_w = any(d.weight == 0.0 for i, e in stoch for t in e.repeats + e.ends for d, _ in t.descriptors())
+                cls = "c19.query-raises." + type(got).__name__ + (".zero-weight-candidates" if zero_w and isinstance(got, ZeroDivisionError) else "")
+                viol.append({"cls": cls, "msg": f"get_ensemble_prob({smi!r}) raised {type(got).__name__}: {got} (generation produces the molecule with probability {want!r})", "text": text, "smiles": smi, "lengths": lengths})
+                continue
             cnt["queries_decided"] += 1
             total += got
             total_ref += want
@@ -222,29 +231,40 @@ def run_case(case):
                     if len(syms) != len(set(syms)):
                         # mechanism feature: a capping choice between several compatible end groups exists
                         cls = "c19.value-differs.partner-weight-normalised-within-candidate-token"
-                if cls == "c19.value-differs" and start == "prefix" and gen.parse_fragment(tail).to_text() == blocks[-1][0]:
-                    # mechanism feature: the suffix has the same atoms as the last block's unit; the search also accepts
-                    # "one more unit and no suffix" (a unit with an unmatched descriptor at the chain end)
-                    alt = 1.0
-                    for bi, (r, (u, m), n) in enumerate(zip(refs, blocks, lengths)):
-                        alt *= pi_n(r, m, n + (1 if bi == len(blocks) - 1 else 0))
-                    if abs(got - (want + alt)) <= 1e-12 + max(fam_tol, 1e-9) * abs(got):
-                        cls = "c19.value-differs.chain-end-unit-without-suffix-also-matched"
-                gauss_n1 = any(e.dist.family == "gauss" and n == 1 for (i, e), n in zip(stoch, lengths))
-                if gauss_n1 and cls == "c19.value-differs":
-                    # mechanism feature: a single-unit block under a gauss law (the interval starts at 0 instead of -inf)
-                    alt = want
-                    for (i, e), r, (u, m), n in zip(stoch, refs, blocks, lengths):
-                        if e.dist.family == "gauss" and n == 1:
-                            alt = alt / max(pi_n(r, m, 1), 1e-300) * (r.cdf(m) - r.cdf(0.0))
-                    if abs(got - alt) <= 1e-12 + 1e-9 * abs(alt):
-                        cls = "c19.value-differs.gauss-single-unit-omits-negative-targets"
+                if cls == "c19.value-differs":
+                    # two listed mechanisms, alone or together, predict the library's value exactly:
+                    #  (g) a single-unit block under a gauss law is evaluated on the interval (0, m] instead of (-inf, m];
+                    #  (s) when the suffix has the same atoms as the last block's unit, the search also accepts the reading
+                    #      "one more unit and no suffix" (a unit with an unmatched descriptor at the chain end)
+                    base = 1.0
+                    for r, (u, m), n in zip(refs, blocks, lengths):
+                        base *= pi_n(r, m, n)
+                    pch = want / base if base > 0 else 0.0
+                    readings = [tuple(lengths)]
+                    if start == "prefix" and gen.parse_fragment(tail).to_text() == blocks[-1][0]:
+                        readings.append(tuple(lengths[:-1]) + (lengths[-1] + 1,))
+                    parts, g_used = [], False
+                    for R in readings:
+                        p = pch
+                        for (i, e), r, (u, m), n in zip(stoch, refs, blocks, R):
+                            if e.dist.family == "gauss" and n == 1:
+                                p *= r.cdf(m) - r.cdf(0.0)
+                                g_used = True
+                            else:
+                                p *= pi_n(r, m, n)
+                        parts.append(p)
+                    pred = sum(parts)
+                    if abs(got - pred) <= 1e-12 + max(fam_tol, 1e-9) * max(abs(got), abs(pred)):
+                        if len(parts) > 1 and parts[1] > tol:
+                            cls = "c19.value-differs.chain-end-unit-without-suffix-also-matched"
+                        elif g_used:
+                            cls = "c19.value-differs.gauss-single-unit-omits-negative-targets"
                 viol.append({"cls": cls, "msg": f"P({smi}) = {got!r}, generation produces it with probability {want!r} (block lengths {lengths})", "text": text, "smiles": smi, "lengths": lengths})
             if max(lengths) >= 2:
                 # (2) atom-order independence
                 for rs in randomized(smi, rng, case["renum"]):
                     g2 = query(rs, M, cnt)
-                    if g2 is None:
+                    if g2 is None or isinstance(g2, Exception):
                         continue
                     cnt["renumbered_queries"] += 1
                     if abs(g2 - got) > 1e-12 + 1e-9 * max(abs(g2), abs(got)):
@@ -290,20 +310,33 @@ def run_case(case):
             continue
         if start == "prefix" and Chem.MolToSmiles(parse_keep_h(smi)) == Chem.MolToSmiles(parse_keep_h(chain_smiles(blocks, lengths, head, tail))):
             continue
-        try:
-            got = query(smi, M, cnt)
-        except Exception as exc:
-            cnt["outside_query_raised"] += 1
-            continue
-        if got is None:
+        got = query(smi, M, cnt)
+        if got is None or isinstance(got, Exception):
+            cnt["outside_query_raised"] += int(isinstance(got, Exception))
             continue
         cnt["outside_queries"] += 1
         if got > 0:
             # symmetric cases where the 'swapped' molecule is still a member are excluded by the reference
-            want = reference(lengths, Chem.MolToSmiles(parse_keep_h(smi)))
-            member = Chem.MolToSmiles(parse_keep_h(smi)) in member_canon
+            canon_out = Chem.MolToSmiles(parse_keep_h(smi))
+            want = reference(lengths, canon_out)
+            member = canon_out in member_canon
             if (want is not None and want == 0.0) and not member:
-                viol.append({"cls": "c19.outside-molecule-gets-positive-probability", "msg": f"P({smi}) = {got!r} although generation can never produce it", "text": text, "smiles": smi})
+                cls = "c19.outside-molecule-gets-positive-probability"
+                if start == "prefix" and gen.parse_fragment(tail).to_text() == blocks[-1][0]:
+                    # listed mechanism (s): the molecule is "units and no suffix" -- head + units^n without the suffix token
+                    import itertools as _it2
+
+                    pred = 0.0
+                    for ls in _it2.product(range(1, 8), repeat=len(blocks)):
+                        mm = parse_keep_h(chain_smiles(blocks, ls, head, ""))
+                        if mm is not None and Chem.MolToSmiles(mm) == canon_out:
+                            p = 1.0
+                            for (i, e), r, (u, m), n in zip(stoch, refs, blocks, ls):
+                                p *= (r.cdf(m) - r.cdf(0.0)) if (e.dist.family == "gauss" and n == 1) else pi_n(r, m, n)
+                            pred += p
+                    if pred > 0 and abs(got - pred) <= 1e-12 + max(fam_tol, 1e-9) * max(got, pred):
+                        cls += ".chain-end-unit-without-suffix-also-matched"
+                viol.append({"cls": cls, "msg": f"P({smi}) = {got!r} although generation can never produce it", "text": text, "smiles": smi})
     cnt.update(trace.take_counters())
     cnt["evaluations"] = cnt["queries_decided"] + cnt["renumbered_queries"] + cnt["outside_queries"]
     seen = collections.Counter()
